@@ -140,6 +140,21 @@ pub open spec fn last_status(d: Seq<WaitStatus>, from: int, n: int, pid: i32, df
     else { last_status(d, from, n - 1, pid, dflt) }
 }
 
+// number of non-continue events of foreground members among delivered[from..n]
+pub open spec fn fg_events(d: Seq<WaitStatus>, from: int, n: int, pids: Seq<i32>) -> int
+    decreases n - from
+{
+    if n <= from { 0 }
+    else { fg_events(d, from, n - 1, pids) + (if pids.contains(d[n - 1].0) && d[n - 1].1 != 3 && d[n - 1].1 != 255 { 1int } else { 0int }) }
+}
+pub proof fn lemma_fg_events_ext(d1: Seq<WaitStatus>, d2: Seq<WaitStatus>, from: int, n: int, pids: Seq<i32>)
+    requires 0 <= from, n <= d1.len(), n <= d2.len(), forall|i: int| 0 <= i < n ==> d1[i] == d2[i],
+    ensures fg_events(d1, from, n, pids) == fg_events(d2, from, n, pids),
+    decreases n - from
+{
+    if n > from { lemma_fg_events_ext(d1, d2, from, n - 1, pids); }
+}
+
 pub proof fn lemma_last_status_ext(d1: Seq<WaitStatus>, d2: Seq<WaitStatus>, from: int, n: int, pid: i32, dflt: int)
     requires 0 <= from, n <= d1.len(), n <= d2.len(), forall|i: int| 0 <= i < n ==> d1[i] == d2[i],
     ensures last_status(d1, from, n, pid, dflt) == last_status(d2, from, n, pid, dflt),
@@ -254,6 +269,9 @@ wait_fg_job = Fn(J, 'wait_fg_job', ret='r', rewrites=RW,
         ('C02.wait.status_is_last_stage_status',
          'pids@.len() > 0 ==> (final(k).delivered.len() > old(k).delivered.len() && fatal_error(final(k).delivered.last())) '
          '|| r.status as int == last_status(final(k).delivered, old(k).delivered.len() as int, final(k).delivered.len() as int, pids@.last(), 0)'),
+        ('C02+C06.wait.returns_only_after_one_event_per_stage',
+         'pids@.len() > 0 ==> (final(k).delivered.len() > old(k).delivered.len() && final(k).delivered.last().1 == 255) '
+         '|| fg_events(final(k).delivered, old(k).delivered.len() as int, final(k).delivered.len() as int, pids@) >= pids@.len()'),
         ('C02+C06.wait.returns_only_when_every_stage_reported',
          'pids@.len() > 0 && !(final(k).delivered.len() > old(k).delivered.len() && final(k).delivered.last().1 == 255) ==> '
          'forall|p: i32| pids@.contains(p) ==> exists|i: int| ' + NEW_EVENTS.replace('K', 'final(k)') +
@@ -267,14 +285,19 @@ wait_fg_job = Fn(J, 'wait_fg_job', ret='r', rewrites=RW,
          '&& 0 <= k.delivered[i].1 <= 3 && k.delivered[i].0 > 0 ==> parked(*k, k.delivered[i])'),
     ], invariant_except_break=[
         ('C05.inv.wait.count', 'count_waited < count_child'),
+        ('C02+C06.inv.wait.count_is_fg_events', 'count_waited as int == fg_events(k.delivered, old(k).delivered.len() as int, k.delivered.len() as int, pids@)'),
         ('C02.inv.wait.status', 'cmd_result.status as int == last_status(k.delivered, old(k).delivered.len() as int, k.delivered.len() as int, pids@.last(), 0)'),
     ], ensures=[
+        ('C02+C06.inv.wait.exit_after_enough_fg_events',
+         '(k.delivered.len() > old(k).delivered.len() && k.delivered.last().1 == 255) '
+         '|| fg_events(k.delivered, old(k).delivered.len() as int, k.delivered.len() as int, pids@) >= pids@.len()'),
         ('C02.inv.wait.exit_status',
          '(k.delivered.len() > old(k).delivered.len() && fatal_error(k.delivered.last())) '
          '|| cmd_result.status as int == last_status(k.delivered, old(k).delivered.len() as int, k.delivered.len() as int, pids@.last(), 0)'),
     ])},
     hints={'before-call:waitpidx': 'RAW: let ghost __d0 = k.delivered;',
-           'after-call:waitpidx': 'lemma_last_status_ext(__d0, k.delivered, old(k).delivered.len() as int, __d0.len() as int, pids@.last(), 0);'},
+           'after-call:waitpidx': 'lemma_last_status_ext(__d0, k.delivered, old(k).delivered.len() as int, __d0.len() as int, pids@.last(), 0); '
+                                  'lemma_fg_events_ext(__d0, k.delivered, old(k).delivered.len() as int, __d0.len() as int, pids@);'},
     let_types={'count_waited': 'usize'},
 )
 
